@@ -36,9 +36,17 @@ async fn ws_echo(
     let g = greeting(h.nonce, h.resp_bytes);
     let mut total = 0u64;
     let mut res: WebsocketChannelResult = Ok(());
+    // flags bit 2: flush after every write, as a handler does that then
+    // waits for its peer
+    let flush = h.flags & 4 == 4;
     if !g.is_empty() {
         if let Err(e) = io.write_all(&g).await {
             res = Err(e.into());
+        }
+        if flush && res.is_ok() {
+            if let Err(e) = io.flush().await {
+                res = Err(e.into());
+            }
         }
     }
     let mut buf = vec![0u8; 4096];
@@ -52,6 +60,10 @@ async fn ws_echo(
                 w.log(Ev::WsBytes, NOCONN, h.nonce, BLOCK as u64, total);
                 if let Err(e) = io.write_all(&block).await {
                     res = Err(e.into());
+                } else if flush {
+                    if let Err(e) = io.flush().await {
+                        res = Err(e.into());
+                    }
                 }
             }
             Err(e) if e.kind() == std::io::ErrorKind::UnexpectedEof => break,
@@ -66,6 +78,10 @@ async fn ws_echo(
                 w.log(Ev::WsBytes, NOCONN, h.nonce, n as u64, total);
                 if let Err(e) = io.write_all(&buf[..n]).await {
                     res = Err(e.into());
+                } else if flush {
+                    if let Err(e) = io.flush().await {
+                        res = Err(e.into());
+                    }
                 }
             }
             Err(e) => res = Err(e.into()),
